@@ -14,6 +14,7 @@ Every constructor is a closed formula; the model is that formula.
   (`rt`), computed by the caller; the theorems take its defining equation as hypothesis.
 -/
 import NumqiModel.Scalar
+import NumqiModel.Dicke
 
 namespace Numqi.Catalogue
 
@@ -149,24 +150,13 @@ def ketMaxCoh (d : Nat) (_x : Nat) : SAmp := ⟨1, 1 / (d : Rat)⟩
 /-- `maximally_coherent_state(d, return_dm=True)` (`_internal.py:437`): `ones((d,d))/d`. -/
 def dmMaxCoh (d : Nat) (_r _c : Nat) : Rat := 1 / (d : Rat)
 
-/-- base-`dim` digits of `x`, `n` of them, most significant first -/
-def digits (dim : Nat) : (n : Nat) → (x : Nat) → List Nat
-  | 0, _ => []
-  | k + 1, x => digits dim k (x / dim) ++ [x % dim]
-
-/-- does `x` (as `n` base-`dim` digits) contain each level `l` exactly `klist[l]` times? -/
-def dickeMatch (klist : List Nat) (x : Nat) : Bool :=
-  let dim := klist.length
-  let ds := digits dim klist.sum x
-  (List.range dim).all fun l => ds.count l == klist.getD l 0
-
-/-- number of basis states in the support of `Dicke(*klist)` -/
-def dickeCount (klist : List Nat) : Nat :=
-  ((List.range (klist.length ^ klist.sum)).filter (dickeMatch klist)).length
-
-/-- `Dicke(*klist)` (`dicke.py:7-32`): `1/√N` on the `N` distinct arrangements of the multiset. -/
+/-- `Dicke(*klist)` (`dicke.py:7-32`): `1/√M` on the `M` distinct arrangements of the multiset, `M` = multinomial coefficient
+(`len(np.unique(permutations))`).  Support test and `M` are the ones of the C17 model (`NumqiModel/Dicke.lean`):
+the base-`dim` digit string of `x` (most significant first, `base = dim**arange(n)[::-1]`) has occupation numbers `klist`. -/
 def ketDicke (klist : List Nat) (x : Nat) : SAmp :=
-  if dickeMatch klist x then ⟨1, 1 / (dickeCount klist : Rat)⟩ else SAmp.zero
+  if Dicke.occ klist.length (Dicke.digits klist.length klist.sum x) = klist then
+    ⟨1, 1 / (Dicke.multinomial klist : Rat)⟩
+  else SAmp.zero
 
 /-! ### W-type states (`Wtype`, `_internal.py:35-39`) -/
 
@@ -258,6 +248,75 @@ end upbgeneric
 def upbComplement (prod : List (List QI)) (r c : Nat) : QI :=
   upbCompl prod.length (fun a x => (prod.getD a []).getD x 0) r c
 
+/-! ### GenShifts UPB (`upb.py:116-124`): `2k` product vectors of `2k-1` qubits -/
+
+/-- `tmp0 = [0, k, k-1, …, 1, k+1, …, 2k-1]` -/
+def gsPerm (k j : Nat) : Nat := if j = 0 then 0 else if j ≤ k then k + 1 - j else j
+
+/-- row `i` of party `x` is `tmp2[[0] ++ np.roll(arange(1,2k), x)][i]`; `np.roll(a, x)[t] = a[(t-x) mod n]`, `n = 2k-1` -/
+def gsIndex (k x i : Nat) : Nat := if i = 0 then 0 else 1 + ((i - 1 + (2 * k - 1) - x) % (2 * k - 1))
+
+/-- the local vector of product vector `i` on party `x` is `(cos, sin)(gsAngle·π/2k)` -/
+def gsAngle (k x i : Nat) : Nat := gsPerm k (gsIndex k x i)
+
+/-- local vector; `c a`, `s a` stand for `cos(aπ/2k)`, `sin(aπ/2k)` -/
+def gsVec {α : Type} (c s : Nat → α) (k x i : Nat) : α × α := (c (gsAngle k x i), s (gsAngle k x i))
+
+/-! ### Pyramid UPB (`upb.py:63-66`) -/
+
+/-- `tmp1[x] = (2/√(5+√5))·(cos(2πx/5), sin(2πx/5), h)`; `c x`, `s x` stand for the cosine / sine, `h = √(1+√5)/2`,
+`scale = 2/√(5+√5)` -/
+def pyramidVec {α : Type} [Mul α] (c s : Nat → α) (h scale : α) (x : Nat) : List α := [scale * c x, scale * s x, scale * h]
+
+/-- party A uses `tmp1[a]`, party B `tmp1[[0,2,4,1,3][a]] = tmp1[2a mod 5]` -/
+def pyramidIdx (party a : Nat) : Nat := if party = 0 then a else (2 * a) % 5
+
+/-- real dot product of two lists -/
+def dotList {α : Type} [Add α] [Mul α] [Zero α] (u v : List α) : α := (u.zip v).foldl (fun acc p => acc + p.1 * p.2) 0
+
+/-! ### Min4x4 UPB (`upb.py:79-92`): entries in `ℤ[√2]`, each row divided by the square root of its squared norm -/
+
+/-- `a + b√2` -/
+structure Z2 where
+  a : Int
+  b : Int
+deriving DecidableEq, Repr, Inhabited
+
+namespace Z2
+instance : Add Z2 := ⟨fun x y => ⟨x.a + y.a, x.b + y.b⟩⟩
+instance : Mul Z2 := ⟨fun x y => ⟨x.a * y.a + 2 * x.b * y.b, x.a * y.b + x.b * y.a⟩⟩
+instance : Zero Z2 := ⟨⟨0, 0⟩⟩
+def ofInt (n : Int) : Z2 := ⟨n, 0⟩
+def toFloat (x : Z2) : Float := Float.ofInt x.a + Float.ofInt x.b * Float.sqrt 2
+end Z2
+
+/-- a row: squared norm and the un-normalised entries; the vector is `entries / √normSq` -/
+structure Z2Row where
+  normSq : Z2
+  entries : List Z2
+
+def z (n : Int) : Z2 := ⟨n, 0⟩
+def r2 : Z2 := ⟨0, 1⟩
+
+/-- party A (`tmp0`): `[1,-3,1,1]/√12`, `e0`, `[0,1,2,1]/√6`, `[1,0,0,-1]/√2`, `e1`, `[3,1,-1,1]/√12`, `[0,1,1,0]/√2`, `e2` -/
+def min4x4A : List Z2Row :=
+  [ ⟨z 12, [z 1, z (-3), z 1, z 1]⟩, ⟨z 1, [z 1, z 0, z 0, z 0]⟩, ⟨z 6, [z 0, z 1, z 2, z 1]⟩, ⟨z 2, [z 1, z 0, z 0, z (-1)]⟩,
+    ⟨z 1, [z 0, z 1, z 0, z 0]⟩, ⟨z 12, [z 3, z 1, z (-1), z 1]⟩, ⟨z 2, [z 0, z 1, z 1, z 0]⟩, ⟨z 1, [z 0, z 0, z 1, z 0]⟩ ]
+
+/-- party B (`tmp1`) -/
+def min4x4B : List Z2Row :=
+  [ ⟨⟨15, 8⟩, [z 0, z 1, ⟨-3, -1⟩, ⟨-1, -1⟩]⟩, ⟨z 1, [z 1, z 0, z 0, z 0]⟩, ⟨⟨5, -2⟩, [z 1, z 0, ⟨-1, 1⟩, z 1]⟩, ⟨z 1, [z 0, z 1, z 0, z 0]⟩,
+    ⟨⟨5, 2⟩, [z (-1), ⟨1, 1⟩, z 0, z 1]⟩, ⟨z 1, [z 0, z 0, z 1, z 0]⟩, ⟨z 5, [z 1, z 1, z 1, ⟨0, -1⟩]⟩, ⟨⟨5, 2⟩, [z (-1), ⟨1, 1⟩, z 0, z 1]⟩ ]
+
+/-- exact test in `ℤ[√2]`: every row has the stated squared norm, and every pair of product vectors is orthogonal on
+party A or on party B (`a + b√2 = 0` iff `a = b = 0`) -/
+def min4x4Orthonormal : Bool :=
+  let ok (t : List Z2Row) := t.all fun r => dotList r.entries r.entries == r.normSq
+  ok min4x4A && ok min4x4B && min4x4A.length == 8 && min4x4B.length == 8 &&
+  (List.range 8).all fun i => (List.range 8).all fun j => i == j ||
+    dotList ((min4x4A.getD i ⟨z 0, []⟩).entries) ((min4x4A.getD j ⟨z 0, []⟩).entries) == (0 : Z2) ||
+    dotList ((min4x4B.getD i ⟨z 0, []⟩).entries) ((min4x4B.getD j ⟨z 0, []⟩).entries) == (0 : Z2)
+
 /-! ### tetrahedron POVM (`utils.py:361-369`) -/
 
 section povm
@@ -302,18 +361,21 @@ def chebT {α : Type} [Add α] [Sub α] [Mul α] [One α] (x : α) : Nat → α
   | 1 => x
   | n + 2 => (x * chebT x (n + 1) + x * chebT x (n + 1)) - chebT x n
 
-/-- `hf_chebval_n(x, n)`: `T_n(x)·(1 if n==0 else √2)` -/
-def chebvalN (x : Float) (n : Nat) : Float := chebT x n * (if n = 0 then 1 else Float.sqrt 2)
+section cheb
+variable {α : Type} [Add α] [Sub α] [Mul α] [Div α] [Zero α] [One α]
+
+/-- `hf_chebval_n(x, n)`: `T_n(x)·(1 if n==0 else √2)`; `sqrt2` stands for `np.sqrt(2)` -/
+def chebvalN (sqrt2 x : α) (n : Nat) : α := chebT x n * (if n = 0 then 1 else sqrt2)
+
+/-- `basis0[k, n] = hf_chebval_n(rootd[k], n)/√d`; `node k = cos(π(k+½)/d)`, `sqrtD = √d` are computed by the caller -/
+def chebBasis0 (sqrt2 sqrtD : α) (node : Nat → α) (k n : Nat) : α := chebvalN sqrt2 (node k) n / sqrtD
+
+/-- `basis1`: rows `k < d-1`: `hf_chebval_n(rootd1[k], n)/√(d-1)` with `node1 k = cos(π(k+½)/(d-1))`; last row `e_{d-1}`. -/
+def chebBasis1 (sqrt2 sqrtD1 : α) (node1 : Nat → α) (d k n : Nat) : α :=
+  if k + 1 < d then chebvalN sqrt2 (node1 k) n / sqrtD1 else if n + 1 = d then 1 else 0
+
+end cheb
 
 def piF : Float := 3.141592653589793
-
-/-- `basis0[k, n] = hf_chebval_n(cos(π(k+½)/d), n)/√d` -/
-def chebBasis0 (d k n : Nat) : Float :=
-  chebvalN (Float.cos (piF * (k.toFloat + 0.5) / d.toFloat)) n / Float.sqrt d.toFloat
-
-/-- `basis1`: rows `k < d-1`: `hf_chebval_n(cos(π(k+½)/(d-1)), n)/√(d-1)`; last row `e_{d-1}`. -/
-def chebBasis1 (d k n : Nat) : Float :=
-  if k + 1 < d then chebvalN (Float.cos (piF * (k.toFloat + 0.5) / (d - 1).toFloat)) n / Float.sqrt (d - 1).toFloat
-  else if n + 1 = d then 1 else 0
 
 end Numqi.Catalogue
